@@ -1,5 +1,6 @@
 // C15: writing a geometry to OBJ/PLY/STL and reading it back preserves it; the command-line
 // encoder/decoder tools compose these steps without further loss.
+#include <array>
 #include <sys/stat.h>
 
 #include <cmath>
@@ -153,7 +154,48 @@ int main(int argc, char **argv) {
       const std::string desc = std::string(fmt == 3 ? "cli " : "obj ") + io.g.family + " np=" + std::to_string(io.g.npoints) + " nf=" + std::to_string(io.g.faces.size()) + " normals=" + std::to_string(hn) + " tex=" + std::to_string(ht);
       rep.note(desc);
       EncoderBuffer eb;
-      ObjEncoder oe;
+      // One ObjEncoder object per worker serves every second OBJ case (encoder objects are reusable); the others use a
+      // fresh one.
+      static thread_local ObjEncoder shared_oe;
+      ObjEncoder fresh_oe;
+      const bool reuse_oe = (k % 2) == 1;
+      ObjEncoder &oe = reuse_oe ? shared_oe : fresh_oe;
+      rep.count(reuse_oe ? "obj_encoder_object/reused" : "obj_encoder_object/fresh");
+      if (fmt == 0 && r.below(3) == 0) {
+        // The same geometry's points exported as a point cloud: the text must hold no faces, and reading it back gives
+        // exactly the (text-)distinct points that were written.
+        std::unique_ptr<PointCloud> cloud = vf::ToPointCloud(io.g);
+        EncoderBuffer pb;
+        if (!oe.EncodeToBuffer(*cloud, &pb)) { rep.violation("obj/point-cloud-encode-failed", desc); return; }
+        std::string ptext(pb.data(), pb.size());
+        if (ptext.rfind("f ", 0) == 0 || ptext.find("\nf ") != std::string::npos) { rep.violation("obj/point-cloud-text-contains-faces", desc, {{"cloud.obj", ptext}}); return; }
+        DecoderBuffer pdb;
+        pdb.Init(ptext.data(), ptext.size());
+        PointCloud pback;
+        ObjDecoder pod;
+        Status pst = pod.DecodeFromBuffer(&pdb, &pback);
+        const PointAttribute *ipa0 = cloud->GetNamedAttribute(GeometryAttribute::POSITION);
+        // OBJ has no point records: the writer emits one `v` line per position *value* and the reader makes one point per
+        // line, so the point-set comparison is meaningful only when every value is used by exactly one point.
+        if (io.g.npoints > 0 && ipa0 && ipa0->is_mapping_identity() && ipa0->size() == cloud->num_points()) {
+          if (!pst.ok()) { rep.violation("obj/point-cloud-read-back-failed", desc + " :: " + pst.error_msg(), {{"cloud.obj", ptext}}); return; }
+          const PointAttribute *ipa = cloud->GetNamedAttribute(GeometryAttribute::POSITION), *opa = pback.GetNamedAttribute(GeometryAttribute::POSITION);
+          if (!opa || pback.num_points() > cloud->num_points()) { rep.violation("obj/point-cloud-point-count", desc + " wrote " + std::to_string(cloud->num_points()) + " read " + std::to_string(pback.num_points()), {{"cloud.obj", ptext}}); return; }
+          // every written position is found among the read ones and vice versa (sorted by x, window search)
+          auto collect = [](const PointCloud &pc, const PointAttribute *a) { std::vector<std::array<float, 3>> v(pc.num_points()); for (uint32_t i = 0; i < pc.num_points(); ++i) a->GetMappedValue(PointIndex(i), v[i].data()); std::sort(v.begin(), v.end()); return v; };
+          const auto win = collect(*cloud, ipa), wout = collect(pback, opa);
+          auto covered = [](const std::vector<std::array<float, 3>> &a, const std::vector<std::array<float, 3>> &b) {
+            for (auto &x : a) {
+              bool found = false;
+              for (auto &y : b) if (Near(x[0], y[0]) && Near(x[1], y[1]) && Near(x[2], y[2])) { found = true; break; }
+              if (!found) return false;
+            }
+            return true;
+          };
+          if (win.size() <= 400 && (!covered(win, wout) || !covered(wout, win))) { rep.violation("obj/point-cloud-points-differ", desc, {{"cloud.obj", ptext}}); return; }
+          rep.count("format/obj-point-cloud");
+        }
+      }
       if (!oe.EncodeToBuffer(*mesh, &eb)) { rep.violation("obj/encode-failed", desc); return; }
       std::string text(eb.data(), eb.size());
       rep.stage(0, "mesh.obj", text.data(), text.size());
